@@ -275,17 +275,19 @@ func genC16(c *h.Ctx) {
 			os.WriteFile(p, []byte(b.String()), 0o644)
 		}
 	}()
+	// h.NewRng(seed) streams for neighbouring seeds are shifted copies of one another; fork to decorrelate
+	rng := c.Rng.Fork()
 	bd := h.BoundaryDoubles()
-	nums := numBoundary(c.Rng)
+	nums := numBoundary(rng)
 	for _, t := range numTypes {
 		for _, n := range nums {
 			c.Add("num "+t+" "+n, "num:"+t)
 		}
 	}
 	for i := 0; i < c.N(8000, 400000); i++ {
-		c.Add("num "+numTypes[c.Rng.Intn(len(numTypes))]+" "+randNum(c.Rng, bd), "num:random")
+		c.Add("num "+numTypes[rng.Intn(len(numTypes))]+" "+randNum(c.Rng, bd), "num:random")
 	}
-	g := &gen{r: c.Rng, bd: bd, nums: nums}
+	g := &gen{r: rng, bd: bd, nums: nums}
 	// store path: every scalar target x boundary numbers and a few non-numbers
 	others := []string{"u", "n", "b:0", "b:1", "s:", "s:3132", "s:312e35", "s:616263", "s:30783130", "s:31653330", "s:2d31", "s:20372020"}
 	for _, t := range append(append([]string{}, numTypes...), "bool", "str", "any") {
@@ -300,7 +302,7 @@ func genC16(c *h.Ctx) {
 		}
 	}
 	for i := 0; i < c.N(3000, 150000); i++ {
-		t := numTypes[c.Rng.Intn(len(numTypes))]
+		t := numTypes[rng.Intn(len(numTypes))]
 		c.Add("store "+t+" "+randNum(c.Rng, bd), "store:random")
 	}
 	// arity: every count 0..4 against fixed and variadic signatures
@@ -324,27 +326,27 @@ func genC16(c *h.Ctx) {
 	}
 	// structured calls
 	for i := 0; i < c.N(14000, 500000); i++ {
-		k := 1 + c.Rng.Intn(3)
-		if c.Rng.Chance(60) {
+		k := 1 + rng.Intn(3)
+		if rng.Chance(60) {
 			k = 1
 		}
-		variadic := c.Rng.Chance(30)
+		variadic := rng.Chance(30)
 		var ts, as []string
 		for j := 0; j < k; j++ {
 			ts = append(ts, g.typ(2))
 		}
 		m := k
 		if variadic {
-			m = k - 1 + c.Rng.Intn(4)
-		} else if c.Rng.Chance(4) {
-			m = c.Rng.Intn(k + 2)
+			m = k - 1 + rng.Intn(4)
+		} else if rng.Chance(4) {
+			m = rng.Intn(k + 2)
 		}
 		for j := 0; j < m; j++ {
 			tj := ts[len(ts)-1]
 			if j < k {
 				tj = ts[j]
 			}
-			if variadic && j == k-1 && m == k && c.Rng.Chance(50) {
+			if variadic && j == k-1 && m == k && rng.Chance(50) {
 				tj = "S(" + tj + ")" // the "last argument is itself the slice" rule
 			}
 			as = append(as, g.val(tj, 2))
